@@ -1220,6 +1220,412 @@ func (g *gen) smpEmptyQuestion(w *world) {
 	}
 }
 
+// ---------------------------------------------------------------------------------------------------
+// C11: the application replaces the conversation's list of long-term keys (SetOurKeys) while a session is
+// established - a new key was generated or imported and the client pushes the new list to its open
+// conversations. The session is what it was (the peer authenticated the key that signed the key exchange
+// and still holds it), so an SMP run in it ends as its two secrets say: equal -> success on both sides,
+// different -> no success, mismatch reported.
+//
+// There is no trace op for SetOurKeys: the call is made directly on the library object. The model keeps
+// the key the exchange was signed with (ourCurrentKey) apart from the list, and no key exchange follows in
+// these conversations, so its state is not concerned.
+func (g *gen) smpKeysReplaced(w *world, idx, o int) {
+	version := 2 + (idx+o)%2
+	n := g.newSmpNet(w, version)
+	if !n.a.c.IsEncrypted() || !n.b.c.IsEncrypted() {
+		return
+	}
+	x, y := n.a, n.b // x: the party whose application replaces the list
+	if ((idx+o)/2)%2 == 1 {
+		x, y = n.b, n.a
+	}
+	variant := []int{0, 1, 3, 0, 1, 2}[idx%6]
+	if g.r.Intn(3) == 0 {
+		// a run before the call
+		s, _, _ := g.secretPair()
+		*n.evOf(x), *n.evOf(y) = nil, nil
+		n.honestRun(y, x, "", s, s, nil)
+		olog.ok("C11")
+		if !w.dead && (!hasEv(n.evA, "smp:6") || !hasEv(n.evB, "smp:6")) {
+			olog.viol("C11", "equal-secrets-no-success", fmt.Sprintf("OTRv%d, run started by %s with equal secrets %s: %s events %v, %s events %v", version, y.id, sq(s), n.a.id, n.evA, n.b.id, n.evB))
+		}
+	}
+	if w.dead || !n.a.c.IsEncrypted() || !n.b.c.IsEncrypted() {
+		return
+	}
+	fresh := func(k int) otr3.PrivateKey { return &oracleKey{DSAPrivateKey: testKeys[k], failAt: -1} }
+	var list []otr3.PrivateKey
+	listStr := ""
+	switch variant {
+	case 0: // the new key first, the old one kept
+		list, listStr = []otr3.PrivateKey{fresh(2), x.key}, fmt.Sprintf("[key 2, key %d]", x.keyIdx)
+	case 1: // the old key is gone from the list
+		list, listStr = []otr3.PrivateKey{fresh(2)}, "[key 2]"
+	case 2: // the new key behind the old one
+		list, listStr = []otr3.PrivateKey{x.key, fresh(2)}, fmt.Sprintf("[key %d, key 2]", x.keyIdx)
+	case 3: // two new keys in front (one of them happens to be the peer's)
+		list, listStr = []otr3.PrivateKey{fresh(y.keyIdx), fresh(2), x.key}, fmt.Sprintf("[key %d, key 2, key %d]", y.keyIdx, x.keyIdx)
+	}
+	fpBefore := ""
+	if k := y.c.GetTheirKey(); k != nil {
+		fpBefore = hx(k.Fingerprint())
+	}
+	ssidBefore := hx(otr3.VerifSnapshot(x.c).SSID)
+	x.c.SetOurKeys(list)
+	g.dist[fmt.Sprintf("smp:keys-replaced:v%d:variant%d", version, variant)]++
+	// the session is untouched: texts flow in both directions
+	for _, p := range []*party{x, y} {
+		ts, _ := w.send(p, g.cleanText())
+		n.l.enqueue(p, ts)
+		n.pump(nil)
+	}
+	fpAfter := ""
+	if k := y.c.GetTheirKey(); k != nil {
+		fpAfter = hx(k.Fingerprint())
+	}
+	if w.dead || !x.c.IsEncrypted() || !y.c.IsEncrypted() || fpBefore != fpAfter || ssidBefore != hx(otr3.VerifSnapshot(x.c).SSID) {
+		return // (not the same session any more: nothing for C11 to judge)
+	}
+	story := fmt.Sprintf("OTRv%d session between %s (key %d) and %s (key %d); the application of %s calls SetOurKeys(%s) on the established conversation (same session id %s, %s still holds fingerprint %s); then", version, n.a.id, n.a.keyIdx, n.b.id, n.b.keyIdx, x.id, listStr, ssidBefore, y.id, fpAfter)
+	first := g.r.Intn(2)
+	for round := 0; round < 2 && !w.dead; round++ {
+		ini, res := x, y
+		if round == first {
+			ini, res = y, x
+		}
+		s1, s2, equal := g.secretPair()
+		if round == 0 {
+			s2, equal = append([]byte{}, s1...), true
+		}
+		q := []string{"", "what is it?"}[g.r.Intn(2)]
+		*n.evOf(ini), *n.evOf(res) = nil, nil
+		n.honestRun(ini, res, q, s1, s2, nil)
+		if w.dead {
+			return
+		}
+		olog.ok("C11")
+		ei, er := *n.evOf(ini), *n.evOf(res)
+		desc := fmt.Sprintf("%s %s calls StartAuthenticate(%q, %s) and %s answers %s (secrets equal=%v): initiator events %v, responder events %v", story, ini.id, q, sq(s1), res.id, sq(s2), equal, ei, er)
+		if equal {
+			if !hasEv(ei, "smp:6") || !hasEv(er, "smp:6") {
+				olog.viol("C11", "equal-secrets-no-success", desc)
+			}
+		} else {
+			if hasEv(ei, "smp:6") || hasEv(er, "smp:6") {
+				olog.viol("C11", "unequal-secrets-success", desc)
+			}
+			if !hasEv(er, "smp:7") || !hasEv(ei, "smp:7") && !hasEv(ei, "smp:1") {
+				olog.viol("C11", "mismatch-not-reported", desc)
+			}
+		}
+		story += fmt.Sprintf(" (after a run started by %s, equal=%v)", ini.id, equal)
+	}
+}
+
+// ---------------------------------------------------------------------------------------------------
+// C12: a peer that does NOT know the secret and sends SMP messages made of degenerate group elements -
+// the identity, the element of order two and zero, each in several representations (1, p+1, 2p+1, 3p+1;
+// p-1, 2p-1; 0, p, 2p) - together with zero knowledge proofs computed to be consistent with them:
+//
+//	identity:  g = 1 is g1^0, so c = H(ix, g1^r), d = r proves it; with g2 = g3 = 1 the secret drops
+//	           out of P and Q and of the final comparison;
+//	order two: c = H(ix, ±g1^r) with the sign that matches the parity of c (found by trying), d = r; the
+//	           run then goes through if the victim's exponent happens to be even (a guess);
+//	zero:      every term that contains the element is zero, c = H(ix, 0), any d.
+//
+// The messages are authentic (sent through the attacker's end of the session with VerifSendTLVs); nothing
+// in them depends on the victim's secret. The attacker's own conversation only serves as the channel: what
+// the victim sends back is read (VerifPeekTLVs) and not delivered. Whatever the victim does with such a
+// message, it must not tell its user that the peer knows the secret.
+type smpForger struct {
+	g     *gen
+	class int         // 1: identity, -1: order two, 0: zero
+	u     [4]*big.Int // the representations used for g2x, g3x, Px, Rx
+	names [4]string
+}
+
+func smpH(ix byte, mpis ...*big.Int) *big.Int {
+	h := sha256.New()
+	h.Write([]byte{ix})
+	for _, m := range mpis {
+		h.Write(otr3.AppendMPI(nil, m))
+	}
+	return new(big.Int).SetBytes(h.Sum(nil))
+}
+
+func smpValue(mpis ...*big.Int) []byte {
+	return otr3.AppendMPIs(otr3.AppendWord(nil, uint32(len(mpis))), mpis...)
+}
+
+var bigG1 = big.NewInt(2)
+
+func g1pow(e *big.Int) *big.Int { return new(big.Int).Exp(bigG1, e, bigP) }
+func negP(x *big.Int) *big.Int  { return new(big.Int).Mod(new(big.Int).Neg(x), bigP) }
+
+// an exponent 1 <= e < q
+func (g *gen) smpExp() *big.Int {
+	e := new(big.Int).SetBytes(g.bytesN(190))
+	if e.Sign() == 0 {
+		e.SetInt64(1)
+	}
+	return e
+}
+
+// proof of knowledge of the logarithm of a degenerate element (messages 1 and 2)
+func (f *smpForger) zkp(ix byte) (c, d *big.Int) {
+	switch f.class {
+	case 0:
+		return smpH(ix, big.NewInt(0)), big.NewInt(1)
+	case 1:
+		r := f.g.smpExp()
+		return smpH(ix, g1pow(r)), r
+	}
+	for {
+		r := f.g.smpExp()
+		t := g1pow(r)
+		if c = smpH(ix, t); c.Bit(0) == 0 {
+			return c, r
+		}
+		if c = smpH(ix, negP(t)); c.Bit(0) == 1 {
+			return c, r
+		}
+	}
+}
+
+// the proof that goes with R (messages 3 and 4): cR = H(ix, g1^d7 * g3x^cR, (Qa/Qb)^d7 * Rx^cR)
+func (f *smpForger) zkpR(ix byte, qaqb *big.Int) (c, d *big.Int) {
+	switch f.class {
+	case 0:
+		return smpH(ix, big.NewInt(0), big.NewInt(0)), big.NewInt(1)
+	case 1:
+		r := f.g.smpExp()
+		return smpH(ix, g1pow(r), new(big.Int).Exp(qaqb, r, bigP)), r
+	}
+	for {
+		r := f.g.smpExp()
+		a, b := g1pow(r), new(big.Int).Exp(qaqb, r, bigP)
+		if c = smpH(ix, a, b); c.Bit(0) == 0 {
+			return c, r
+		}
+		if c = smpH(ix, negP(a), negP(b)); c.Bit(0) == 1 {
+			return c, r
+		}
+	}
+}
+
+// P, Q and their proof (messages 2 and 3): cP = H(ix, g3^d5 * P^cP, g1^d5 * g2^d6 * Q^cP) with g2 = g3 = 1
+// (for the element of order two: if the victim's exponent is even; d6 is even so that g2 does not matter)
+func (f *smpForger) pq(ix byte) (pp, qq, cp, d5, d6 *big.Int) {
+	if f.class == 0 {
+		return f.u[2], f.u[2], smpH(ix, big.NewInt(0), big.NewInt(0)), big.NewInt(1), big.NewInt(1)
+	}
+	pp = f.u[2]
+	if f.class == -1 {
+		pp = new(big.Int).Add(f.u[2], big.NewInt(2)) // the identity in the same representation
+	}
+	r4, r5 := f.g.smpExp(), f.g.smpExp()
+	qq = g1pow(r4)
+	cp = smpH(ix, big.NewInt(1), g1pow(r5))
+	d5 = new(big.Int).Mod(new(big.Int).Sub(r5, new(big.Int).Mul(r4, cp)), bigQ)
+	d6 = new(big.Int).Lsh(f.g.smpExp(), 1)
+	d6.Mod(d6, bigQ)
+	d6.SetBit(d6, 0, 0)
+	if d6.Sign() == 0 {
+		d6.SetInt64(2)
+	}
+	return
+}
+
+func (f *smpForger) quotient(qa, qb *big.Int) *big.Int {
+	inv := new(big.Int).ModInverse(qb, bigP)
+	if inv == nil {
+		return big.NewInt(0)
+	}
+	return inv.Mul(inv, qa).Mod(inv, bigP)
+}
+
+func (f *smpForger) describe(role int) string {
+	fields := [2][4]string{{"g2a", "g3a", "Pa", "Ra"}, {"g2b", "g3b", "Pb", "Rb"}}[role]
+	var s []string
+	for i := range fields {
+		nm := f.names[i]
+		if i == 2 && f.class == -1 {
+			nm += "+2"
+		}
+		s = append(s, fields[i]+"="+nm)
+	}
+	return strings.Join(s, " ")
+}
+
+// the SMP TLV of a given type in what a party sent, read with the keys of the other end
+func smpTLVIn(reader *party, ms []otr3.ValidMessage, want uint16) []*big.Int {
+	for _, m := range reassembleAll(ms) {
+		if _, types, values, ok := otr3.VerifPeekTLVs(reader.c, m); ok {
+			for i, t := range types {
+				if t == want {
+					if _, mpis, ok := otr3.ExtractMPIs(values[i]); ok {
+						return mpis
+					}
+				}
+			}
+		}
+	}
+	return nil
+}
+
+func (g *gen) smpSecretless(w *world, idx, o int) {
+	version := 2 + (idx+o)%2
+	role := ((idx + o) / 2) % 2 // 0: the attacker starts the run, 1: the attacker answers
+	n := g.newSmpNet(w, version)
+	if !n.a.c.IsEncrypted() || !n.b.c.IsEncrypted() {
+		return
+	}
+	att, vic := n.a, n.b
+	if g.r.Intn(2) == 0 {
+		att, vic = n.b, n.a
+	}
+	one := big.NewInt(1)
+	kp := func(k, d int64) *big.Int { return new(big.Int).Add(new(big.Int).Mul(bigP, big.NewInt(k)), big.NewInt(d)) }
+	type rep struct {
+		name  string
+		v     *big.Int
+		class int
+	}
+	reps := []rep{{"0", big.NewInt(0), 0}, {"p", kp(1, 0), 0}, {"2p", kp(2, 0), 0},
+		{"1", one, 1}, {"p+1", kp(1, 1), 1}, {"2p+1", kp(2, 1), 1}, {"3p+1", kp(3, 1), 1},
+		{"p-1", kp(1, -1), -1}, {"2p-1", kp(2, -1), -1}}
+	var attempts []*smpForger
+	for _, r := range reps {
+		attempts = append(attempts, &smpForger{g: g, class: r.class, u: [4]*big.Int{r.v, r.v, r.v, r.v}, names: [4]string{r.name, r.name, r.name, r.name}})
+	}
+	// every field in a representation of its own: of the identity (those above p), of the element of
+	// order two
+	for _, pool := range [][]rep{reps[4:7], reps[7:9]} {
+		f := &smpForger{g: g, class: pool[0].class}
+		for i := range f.u {
+			r := pool[g.r.Intn(len(pool))]
+			f.u[i], f.names[i] = r.v, r.name
+		}
+		attempts = append(attempts, f)
+	}
+	g.r.Shuffle(len(attempts), func(i, j int) { attempts[i], attempts[j] = attempts[j], attempts[i] })
+	g.dist[fmt.Sprintf("smp:secretless:v%d:role%d", version, role)]++
+
+	var vicEv []string
+	// an authentic data message of the attacker with one SMP TLV, delivered to the victim; returns what the
+	// victim sends back (which is not delivered)
+	inject := func(t uint16, value []byte) (back []otr3.ValidMessage, ok bool) {
+		for _, m := range w.sendTLVs(att, []uint16{t}, [][]byte{value}) {
+			_, ts, _, pan := w.recv(vic, m)
+			if pan {
+				return nil, false
+			}
+			vicEv = append(vicEv, smpEvents(lastEvents)...)
+			back = append(back, ts...)
+		}
+		return back, !w.dead
+	}
+	for _, f := range attempts {
+		if w.dead || !att.c.IsEncrypted() || !vic.c.IsEncrypted() {
+			break
+		}
+		secret, _, _ := g.secretPair()
+		q := []string{"", "what is it?"}[g.r.Intn(2)]
+		vicEv = nil
+		steps := ""
+		panicked := false
+		if role == 0 {
+			c2, d2 := f.zkp(1)
+			c3, d3 := f.zkp(2)
+			t, v := uint16(2), smpValue(f.u[0], c2, d2, f.u[1], c3, d3)
+			if q != "" {
+				t, v = 7, append(append([]byte(q), 0), v...)
+			}
+			_, ok := inject(t, v)
+			steps = fmt.Sprintf("SMP message 1 (TLV type %d, question %q)", t, q)
+			panicked = !ok
+			if ok && (hasEv(vicEv, "smp:3") || hasEv(vicEv, "smp:4")) {
+				ts, _ := w.smpSecret(vic, secret)
+				vicEv = append(vicEv, smpEvents(lastEvents)...)
+				steps += fmt.Sprintf(", the victim answers %s", sq(secret))
+				if m2 := smpTLVIn(att, ts, 3); len(m2) == 11 && !w.dead {
+					pa, qa, cp, d5, d6 := f.pq(6)
+					cr, d7 := f.zkpR(7, f.quotient(qa, m2[7]))
+					_, ok = inject(4, smpValue(pa, qa, cp, d5, d6, f.u[3], cr, d7))
+					steps += ", SMP message 3"
+					panicked = !ok
+				}
+			}
+		} else {
+			ts, _ := w.smpStart(vic, q, secret)
+			vicEv = append(vicEv, smpEvents(lastEvents)...)
+			steps = fmt.Sprintf("the victim calls StartAuthenticate(%q, %s)", q, sq(secret))
+			if !w.dead {
+				if m1 := smpTLVIn(att, ts, 2); q == "" && len(m1) != 6 {
+					break // (no request went out: nothing to answer)
+				}
+				c2, d2 := f.zkp(3)
+				c3, d3 := f.zkp(4)
+				pb, qb, cp, d5, d6 := f.pq(5)
+				back, ok := inject(3, smpValue(f.u[0], c2, d2, f.u[1], c3, d3, pb, qb, cp, d5, d6))
+				steps += ", SMP message 2"
+				panicked = !ok
+				if m3 := smpTLVIn(att, back, 4); ok && len(m3) == 8 {
+					cr, d7 := f.zkpR(8, f.quotient(m3[1], qb))
+					_, ok = inject(5, smpValue(f.u[3], cr, d7))
+					steps += ", SMP message 4"
+					panicked = !ok
+				}
+			}
+		}
+		what := fmt.Sprintf("OTRv%d: %s holds the session with %s but not the secret; it sends authentic SMP messages with %s and proofs made to fit (%s): %s reports %v",
+			version, att.id, vic.id, f.describe(role), steps, vic.id, vicEv)
+		olog.ok("C12")
+		if panicked || w.dead {
+			olog.viol("C12", "smp-panic", "a call panicked - "+what)
+			olog.viol("C13", "receive-panics:smp", "a call panicked - "+what)
+			return
+		}
+		if hasEv(vicEv, "smp:6") {
+			key := "degenerate-group-element-success"
+			if version == 2 && f.class != 0 {
+				key = "otrv2-degenerate-group-element" // (known: OTRv2 only refuses what is zero modulo p)
+			}
+			olog.viol("C12", key, what+" - success for a peer that does not know the secret")
+		}
+		// call off whatever is left of the run on the victim's side (its abort is not delivered either)
+		if otr3.VerifSnapshot(vic.c).SmpState > 1 {
+			w.smpAbort(vic)
+		}
+	}
+	if w.dead || !att.c.IsEncrypted() || !vic.c.IsEncrypted() {
+		return
+	}
+	// afterwards an honest run between the two still succeeds
+	for _, p := range []*party{n.a, n.b} {
+		ts, _ := w.smpAbort(p)
+		n.l.enqueue(p, ts)
+		n.pump(nil)
+	}
+	s, _, _ := g.secretPair()
+	ini, res := att, vic
+	if g.r.Intn(2) == 0 {
+		ini, res = vic, att
+	}
+	n.evA, n.evB = nil, nil
+	n.honestRun(ini, res, "", s, s, nil)
+	olog.ok("C12")
+	if w.dead {
+		olog.viol("C12", "smp-panic", fmt.Sprintf("OTRv%d: a call panicked in the honest run after the runs with degenerate group elements", version))
+		return
+	}
+	if !hasEv(n.evA, "smp:6") || !hasEv(n.evB, "smp:6") {
+		olog.viol("C12", "no-recovery-after-deviant-message", fmt.Sprintf("OTRv%d: after %d runs in which %s sent SMP messages with degenerate group elements (the answers of %s not delivered) and aborts on both sides, an honest run started by %s with equal secrets %s does not succeed: %s %v, %s %v",
+			version, len(attempts), att.id, vic.id, ini.id, sq(s), n.a.id, n.evA, n.b.id, n.evB))
+	}
+}
+
 func init() {
 	profiles["smp"] = func(seed int64, n int, out *emitter, extra map[string]interface{}) map[string]int {
 		g := &gen{r: rand.New(rand.NewSource(seed)), out: out, dist: map[string]int{}}
@@ -1263,6 +1669,17 @@ func init() {
 			case 2:
 				g.smpEmptyQuestion(w)
 			}
+		}
+		// appended: the key list replaced by the application in an established session, then SMP runs in
+		// it (C11); a peer without the secret sending degenerate group elements with proofs made to fit,
+		// as initiator and as responder, both versions (C12)
+		ko := g.r.Intn(4)
+		for i := 0; i < (n+9)/10; i++ {
+			g.smpKeysReplaced(w, i, ko)
+		}
+		so := g.r.Intn(4)
+		for i := 0; i < (n+9)/10; i++ {
+			g.smpSecretless(w, i, so)
 		}
 		extra["panics"] = panicCount
 		olog.export(extra)
